@@ -301,6 +301,18 @@ Fixpoint mapM_id {A} (l : list (res A)) : res (list A) :=
   | x :: xs => do y <- x; do ys <- mapM_id xs; Ok (y :: ys)
   end.
 
+(* UnionForm::purelist_depth / purelist_isregular return at the first content that settles the answer *)
+Fixpoint depth_scan (d0 : Z) (l : list (res Z)) : res Z :=
+  match l with
+  | [] => Ok d0
+  | r :: rest => do d <- r; if d0 =? d then depth_scan d0 rest else Ok (-1)
+  end.
+Fixpoint all_regular (l : list (res bool)) : res bool :=
+  match l with
+  | [] => Ok true
+  | r :: rest => do b <- r; if b : bool then all_regular rest else Ok false
+  end.
+
 Fixpoint f_purelist_depth (f : form) : res Z :=
   match f with
   | FNumpy _ inner _ _ _ => Ok (zlen inner + 1)
@@ -310,11 +322,10 @@ Fixpoint f_purelist_depth (f : form) : res Z :=
   | FIndexed _ _ c | FIndexedOption _ _ c | FByteMasked _ _ c _ | FBitMasked _ _ c _ _ | FUnmasked _ c =>
       f_purelist_depth c
   | FUnion _ _ _ cs =>
-      do ds <- mapM_id (map f_purelist_depth cs);
-      Ok (match ds with
-          | [] => -1
-          | d0 :: rest => if forallb (Z.eqb d0) rest then d0 else -1
-          end)
+      match map f_purelist_depth cs with
+      | [] => Ok (-1)
+      | r0 :: rest => do d0 <- r0; depth_scan d0 rest
+      end
   | FRecord _ _ _ => Ok 1
   | FVirtual _ None _ => Err EValue
   | FVirtual _ (Some g) _ => f_purelist_depth g
@@ -374,7 +385,7 @@ Fixpoint f_purelist_isregular (f : form) : res bool :=
   | FListOffset _ _ _ | FList _ _ _ _ => Ok false
   | FRegular _ c _ | FIndexed _ _ c | FIndexedOption _ _ c | FByteMasked _ _ c _ | FBitMasked _ _ c _ _
   | FUnmasked _ c => f_purelist_isregular c
-  | FUnion _ _ _ cs => do l <- mapM_id (map f_purelist_isregular cs); Ok (forallb (fun b => b) l)
+  | FUnion _ _ _ cs => all_regular (map f_purelist_isregular cs)
   | FVirtual _ None _ => Err EValue
   | FVirtual _ (Some g) _ => f_purelist_isregular g
   end.
